@@ -328,7 +328,8 @@ def run(ssa, prime, inputs, max_steps=2000, override=None):
 
 def alg(op, a, b):
     if op in ("add", "sub"):
-        return max(a, b)
+        # Circom's algebra: the sum of two quadratic expressions is not of the form a*b + c
+        return 3 if (a == 2 and b == 2) else max(a, b)
     if op == "mul":
         return min(3, a + b)
     if op == "div":
